@@ -293,6 +293,9 @@ pub struct ProgVt {
     pub remote_events: Option<fn(usize)>,
     /// multitest twin chains (C12): runs the histories of this program and emits MtOp events
     pub mt_histories: Option<fn(&Value)>,
+    /// the builders behind the remote helpers (C10): interprets the runs the specification asks for,
+    /// one event per builder call
+    pub builder_events: Option<fn(&Value)>,
 }
 
 const HEIGHTS: [u64; 3] = [12345, 7, 999_999];
@@ -367,6 +370,12 @@ pub fn run_program(vt: &ProgVt, prog: &Value) {
     if let Some(f) = vt.remote_events {
         if let Err(m) = rt::catch(move || f(stims.len())) {
             rt::emit(json!({"ev":"Panic","prog":id,"where":"remote","msg":m}));
+        }
+    }
+    if let Some(f) = vt.builder_events {
+        let runs = prog.get("builder").cloned().unwrap_or(json!([]));
+        if let Err(m) = rt::catch(move || f(&runs)) {
+            rt::emit(json!({"ev":"Panic","prog":id,"where":"builder","msg":m}));
         }
     }
 }
